@@ -274,19 +274,41 @@ def build(nodes_spec, preff):
 
 
 # --- calls -------------------------------------------------------------------------------------------------
-def details_for(form):
+def tok(x):
+    """the text token that makes the detail texts of one call its own ("none": no token)"""
+    return "" if x in (None, "none") else "<%s>" % x
+
+
+def details_for(form, x=None):
     if form == "det":
-        return {"foo": text_content(DETAIL_TEXT)}
+        return {"foo": text_content(DETAIL_TEXT + tok(x))}
     if form == "detr":
-        return {"reason": text_content(REASON_IN_DETAILS), "foo": text_content(DETAIL_TEXT)}
+        return {"reason": text_content(REASON_IN_DETAILS + tok(x)), "foo": text_content(DETAIL_TEXT + tok(x))}
     if form == "det0":
         return {}  # details supplied, just empty
     return None
 
 
+try:
+    raise AssertionError("SUBTEST-failed")
+except AssertionError:
+    FAIL_INFO = sys.exc_info()
+
+# THE details dict of a reporter that re-uses one mutable dict object for all its outcomes (c["id"] == "reuse")
+REUSED = {}
+
+
 def do_call(top, c, tests):
     """issue reporter call c (dict exported by the spec) on the real top object"""
     op = c["op"]
+    if op == "subtest":
+        # what unittest.TestCase.subTest() reports when the block ends: addSubTest(test, subtest, err)
+        import unittest.case
+
+        t = tests[c["t"]]
+        err = {"failure": FAIL_INFO, "error": EXC_INFO, "none": None}[c["kind"]]
+        top.addSubTest(t, unittest.case._SubTest(t, "sub", {"i": 1}), err)
+        return
     if op == "startTestRun":
         top.startTestRun()
     elif op == "stopTestRun":
@@ -319,8 +341,12 @@ def do_call(top, c, tests):
             m(t, "")  # what unittest.skip("") / skipTest("") report: supplied, but falsy
         elif form == "none":
             m(t)
+        elif c.get("id") == "reuse":
+            REUSED.clear()
+            REUSED.update(details_for(form, c.get("x")))
+            m(t, details=REUSED)
         else:
-            m(t, details=details_for(form))
+            m(t, details=details_for(form, c.get("x")))
     else:
         raise AssertionError("unknown op %s" % op)
 
@@ -339,7 +365,9 @@ def classify_payload(p):
         if names == {"traceback"} and isinstance(p["traceback"], TracebackContent):
             return "tb", ""
         try:
-            txt = text_of(p)
+            import re as _re
+
+            txt = {k: _re.sub(r"<x\d+>$", "", v) if isinstance(v, str) else v for k, v in text_of(p).items()}
         except Exception as ex:  # noqa
             return "details?", repr(ex)
         if txt == {}:
